@@ -42,6 +42,9 @@ type Case struct {
 	StopUs    int    `json:"stop_after_start_us"` // -1: after the history
 	RefuseNth int    `json:"close_every_nth_conn_inside_onopen,omitempty"`
 	Shutdown  bool   `json:"shutdown_ctx"`
+	// Mass: this many idle client connections are opened before the history (hundreds to thousands of
+	// connections to close and to notify when the engine stops)
+	Mass int `json:"mass_connections,omitempty"`
 	// YieldPerMille (instrumented build only): probability, in 1/1000, with which every lock / unlock
 	// statement of the library yields the processor or sleeps 1-50 us (schedule perturbation)
 	YieldPerMille int `json:"yield_per_mille,omitempty"`
@@ -222,6 +225,23 @@ func runCase(c Case) vlib.Result {
 	var helperLn net.Listener
 	openAtStop := 0
 	racing := 0
+	if c.StopUs < 0 && c.Mass > 0 {
+		res.Classes = append(res.Classes, "mass-connections")
+		for i := 0; i < c.Mass; i++ {
+			p, err := net.DialTimeout("tcp", addrs[i%len(addrs)], 3*time.Second)
+			if err != nil {
+				break
+			}
+			addPeer(p)
+			openAtStop++
+		}
+		// let the engine accept them all
+		if c.Kind == "core" {
+			vlib.WaitUntil(3*time.Second, func() bool { return atomic.LoadInt64(&opens) >= int64(openAtStop) })
+		} else {
+			time.Sleep(50 * time.Millisecond)
+		}
+	}
 	if c.StopUs < 0 {
 		for _, a := range c.Acts {
 			switch a.K {
@@ -541,6 +561,12 @@ func gen(t *rapid.T) Case {
 	c.Storm = rapid.IntRange(0, 2).Draw(t, "storm") == 0
 	c.RaceWrite = rapid.IntRange(0, 2).Draw(t, "racewrite") == 0
 	c.Shutdown = rapid.IntRange(0, 3).Draw(t, "shutdown") == 0
+	if c.StopUs < 0 && c.RefuseNth == 0 {
+		// rarely: thousands of connections cost thousands of ephemeral ports each time
+		if rapid.IntRange(0, 24).Draw(t, "massive") == 0 {
+			c.Mass = rapid.SampledFrom([]int{600, 1100, 2100}).Draw(t, "mass")
+		}
+	}
 	if vlib.YieldAvailable {
 		c.YieldPerMille = rapid.SampledFrom([]int{0, 0, 20, 100, 300}).Draw(t, "yield")
 	}
